@@ -226,6 +226,47 @@ pub fn check(tier: Tier) -> i32 {
 			}
 		}
 	}
+	// --- part 2: commits that fail while applying (batch larger than the memtable arena) ---
+	let mut apply_runs = 0u64;
+	let mut apply_failed_batches = 0u64;
+	{
+		use rayon::prelude::*;
+		surrealkv::verif::set_forced_height(1);
+		let scs = crate::props::c15b::scenarios(tier);
+		let results: Vec<(usize, Result<(Option<(String, String)>, bool), String>)> = scs.par_iter().enumerate().map(|(i, sc)| (i, crate::props::c15b::run(sc))).collect();
+		for (i, r) in results {
+			apply_runs += 1;
+			match r {
+				Err(e) => {
+					eprintln!("machinery: apply-failure scenario {}: {e}", scs[i].short());
+					return 2;
+				}
+				Ok((v, failed)) => {
+					if failed {
+						apply_failed_batches += 1;
+					}
+					if let Some((class, text)) = v {
+						let class = format!("apply-failure:{class}");
+						*per_class.entry(class.clone()).or_default() += 1;
+						let first = seen.insert(class.clone());
+						report.violations.push(crate::util::Violation {
+							class,
+							what: if first { format!("{} => {text}", scs[i].short()) } else { String::new() },
+							replay: if first { scs[i].to_json() } else { J::Null },
+						});
+					}
+				}
+			}
+		}
+		if apply_failed_batches == 0 || apply_failed_batches == apply_runs {
+			eprintln!("machinery: apply-failure part is vacuous ({apply_failed_batches} of {apply_runs} batches failed; both outcomes are needed)");
+			return 2;
+		}
+		total_done += apply_runs;
+		total_planned += scs.len();
+	}
+	report.set("apply_failure_scenarios", json!(apply_runs));
+	report.set("apply_failure_scenarios_in_which_the_batch_failed", json!(apply_failed_batches));
 	report.violations.sort_by_key(|v| v.what.is_empty());
 	report.set("evaluations", json!(total_done));
 	report.set("distinct_nontrivial", json!(total_done));
@@ -336,6 +377,35 @@ fn check_one(
 }
 
 pub fn replay(r: &J) -> i32 {
+	if r["engine"] == "c15-apply" {
+		surrealkv::verif::set_forced_height(1);
+		let sc = crate::props::c15b::Scenario::from_json(r);
+		println!("replaying C15 apply-failure scenario {}", sc.short());
+		let a = crate::props::c15b::run(&sc);
+		let b = crate::props::c15b::run(&sc);
+		return match (a, b) {
+			(Ok((a, _)), Ok((b, _))) => {
+				if a.as_ref().map(|x| &x.0) != b.as_ref().map(|x| &x.0) {
+					eprintln!("machinery: replay not deterministic");
+					return 2;
+				}
+				match a {
+					Some((c, t)) => {
+						println!("VIOLATION property=C15 replay=<this file>\n  class=apply-failure:{c} {t}");
+						1
+					}
+					None => {
+						println!("replay passed: no violation");
+						0
+					}
+				}
+			}
+			(Err(e), _) | (_, Err(e)) => {
+				eprintln!("machinery: {e}");
+				2
+			}
+		};
+	}
 	let wl = workloads()[r["workload"].as_u64().unwrap_or(0) as usize].clone();
 	let f = Fault {
 		class: r["fault"]["class"].as_i64().unwrap() as i32,
